@@ -331,6 +331,7 @@ fn names_part(ctx: &Ctx) {
     ctx.set("named_trees", json!({"pool": pool.len(), "subsets": subs.len(), "subsets_done": res.processed, "nodes_max": params.max_nodes, "transitions": evals}));
     if !res.complete {
         ctx.set("exhaustive", json!(false));
+        ctx.push("caps", json!("wall or memory budget reached in the part `named trees`: see its done / total counters"));
     }
 }
 
@@ -485,6 +486,7 @@ fn variants_part(ctx: &Ctx) {
     );
     if !res.complete || !res2.complete {
         ctx.set("exhaustive", json!(false));
+        ctx.push("caps", json!("wall or memory budget reached in the part `document variants`: see its done / total counters"));
     }
 }
 
@@ -581,5 +583,6 @@ fn families(ctx: &Ctx) {
     ctx.set("families", json!({"three_name_documents": docs.len(), "histories_d_d_e": nd * n, "many_occurrence_documents": many.len(), "io_error_extensions": 16}));
     if !res.complete || !res2.complete {
         ctx.set("exhaustive", json!(false));
+        ctx.push("caps", json!("wall or memory budget reached in the part `families`: see its done / total counters"));
     }
 }
